@@ -8,6 +8,8 @@ for mp in sorted(glob.glob(os.path.join(ROOT, "seeded", "*", "meta.json"))):
     m = json.load(open(mp))
     if only and m["id"] not in only:
         continue
+    if m.get("obsolete"):
+        print(m["id"], "obsolete (equivalent on the current tree), skipped"); continue
     d = os.path.dirname(mp)
     st = subprocess.run(["git", "-C", "/repo", "status", "--porcelain", "--untracked-files=no"], capture_output=True, text=True).stdout
     if st.strip():
